@@ -492,6 +492,8 @@ def main(tier, seed):
     cases = [gen_case(rng, tier) for _ in range(n)]
     judge(rep, algopy, cases)
     judge_pow(rep, algopy, [gen_pow_case(rng, tier) for _ in range(120 if tier == 'quick' else 1500)])
+    import r9
+    r9.c02_scalar_bases(rep, algopy, rng, tier)
     return rep.finish()
 
 
